@@ -70,7 +70,8 @@ REG["C16"] = {
 }
 
 REG["C05"] = {
-    "thorough_extra": ["replay"],
+    "quick_extra": ["replay", "e2e"],
+    "thorough_extra": ["replay", "e2e"],
     "kani_units": ["c05_exitstatus"],
     "units": ["validate"],
     "scope": "TestCase::validate: wrong exit code => Err(InvalidExitCode{actual, expected}) regardless of output; Ok => exit status is Code(expected) "
@@ -86,6 +87,9 @@ REG["C05"] = {
         "Detached outputs validate as today (update.rs validates them); bin/commands/test.rs filters Detached before validate — textual anchor only",
     ],
     "not_decided": ["that the executor hands validate the output of *this* test case", "that bin/commands/test.rs counts Err as failed and Timeout before validate",
+                    "the last sentence end to end (a command killed by a signal, and every later test case, is not reported as succeeded): BOUNDED stand-in only — engine e2e builds the real "
+                    "scrut binary from the working tree and runs 12 generated documents (the test case at position 1..3 kills its shell with SIGKILL / SIGTERM; Markdown and Cram) through "
+                    "`scrut test -r json`: no `success` at or after that test case, the earlier ones succeed, exit status 50 or 1",
                     ],
     "callsites": [("src/bin/commands/test.rs", "if output.exit_code == ExitStatus::Detached { count_detached += 1; continue; }")],
 }
@@ -102,7 +106,7 @@ REG["C14"] = {
     "assumptions": ["the selection expression itself (vec![..].into_iter().filter(is_some).min()) is inside execute_all, out of reach: the harness applies "
                     "Option::min to the extracted struct, which is what Iterator::min folds with; anchor checked textually",
                     "Kani/CBMC; rustc's expansion of #[derive(PartialOrd, Ord)] is what is proved (the struct text incl. attributes is copied verbatim)"],
-    "not_decided": ["that the process is really aborted after that long (subprocess + kernel): BOUNDED stand-in only — verif-replay c14 runs 18 real bash executions through StatefulExecutor + BashRunner (per-test 300 ms vs document 5 s and the reverse, each alone, document timeout 0 with and without a per-test limit, no timeout reached, both generous; the slow test case first or second, always followed by one more) and checks which limit is reported (Index / Total / none), that the outputs stop at the aborted test case and that the 3 s command is cut off within 2.5 s", "skipped-vs-passed accounting after a timeout (bin/commands/test.rs)",
+    "not_decided": ["that the process is really aborted after that long (subprocess + kernel): BOUNDED stand-in only — verif-replay c14 runs 18 real bash executions through StatefulExecutor + BashRunner (per-test 300 ms vs document 5 s and the reverse, each alone, document timeout 0 with and without a per-test limit, no timeout reached, both generous; the slow test case first or second, always followed by one more) and checks which limit is reported (Index / Total / none), that the outputs stop at the aborted test case and that the 3 s command is cut off within 2.5 s", "skipped-vs-passed accounting after a timeout (bin/commands/test.rs): BOUNDED stand-in only — engine e2e builds the real scrut binary from the working tree and runs 24 generated documents through `scrut test -r json` (slow test case at position 1..3 x {per-test 300 ms; the same with total_timeout 0s; the same under --timeout-seconds 20; total_timeout 1500 ms; the same with a 20 s per-test limit; --timeout-seconds 2}; Cram under --timeout-seconds 2; three documents whose commands finish inside every limit): results [success.., timeout, skipped..] + the other document's success, exit status 50 (0 when nothing times out)",
                     "the arithmetic of std::time::Instant (opaque shim: now/add/duration_since carry no contract)", "the value of the default limit"],
     "callsites": [("src/executors/stateful_executor.rs", ".into_iter().filter(|item| item.is_some()).min()")],
 }
@@ -331,7 +335,10 @@ REG["C15"] = {
                     "BOUNDED stand-in for the executors only — verif-replay c15 N runs real bash processes: every sequence of up to N test cases with exit codes from {0, 1, 80, 81}, skip code unset "
                     "or configured 81, through StatefulExecutor + BashRunner and through BashScriptExecutor, must give ExecutionError::Skipped(index of the first test case that exits with its skip "
                     "code) exactly when there is one, else every test case its own exit code; the same sequences through BashScriptExecutor followed by a test case that runs `exit 3` (ends the shared shell) and one more: still skipped at that index, and not skipped when no test case exits with the skip code; and through StatefulExecutor under a document-wide skip code 1 that one test case overrides: each test case judged by its own code (quick N=2: 192 executions, thorough N=3: see evidence)",
-                    "the accounting in commands/test.rs (every test case of the document skipped, none failed or passed, other documents unaffected, skipped after a timeout)"],
+                    "the accounting in commands/test.rs (every test case of the document skipped, none failed or passed, other documents unaffected): BOUNDED stand-in only — engine e2e builds the "
+                    "real scrut binary from the working tree and runs 103 (thorough 145) generated documents through `scrut test -r json`: every position of the skipping test case in documents of "
+                    "1..3 (4) test cases x {default code; document-wide 81; 82 for that test case; both} x {plain; failing expectations around it; the code written as expected exit code}, Markdown and "
+                    "Cram, next to a second document that must succeed; documents without a skip code (all pass / first fails -> exit 50, nothing skipped)"],
 }
 
 VX_NOTE = ("Trusted: Verus/Z3; the extractor's rewrite rules (DESIGN §4.2, each firing is logged in evidence.rewrites_fired); "
